@@ -216,6 +216,30 @@ def rule_r4(ctx):
     ctx.check("R4", "_recursive_node_iter yields the node before descending, lazily", ok, gen, gen.node,
               "sub-iterators are created before the owning node is yielded, or the node sequence is materialised eagerly",
               how="statement order inside the per-node loop; no list()/tuple() of the graph")
+    # the per-node loop walks the live container in both directions: its iterable is the graph parameter itself or
+    # reversed()/iter() of it - not a slice, copy or sorted/filtered sequence (a snapshot would keep yielding removed
+    # nodes and miss inserted ones)
+    gp = gen.params[1] if len(gen.params) > 1 else None
+
+    def live(e, depth=0):
+        if isinstance(e, ast.Name):
+            if e.id == gp:
+                return True
+            defs = [n.value for n in own_nodes(gen.node) if isinstance(n, (ast.Assign, ast.AnnAssign)) and getattr(n, "value", None) is not None
+                    and any(isinstance(t, ast.Name) and t.id == e.id for t in (n.targets if isinstance(n, ast.Assign) else [n.target]))]
+            return bool(defs) and depth < 3 and all(live(d, depth + 1) for d in defs)
+        if isinstance(e, ast.IfExp):
+            return live(e.body, depth) and live(e.orelse, depth)
+        if isinstance(e, ast.Call) and dotted_of(e.func) in ("reversed", "iter") and len(e.args) == 1:
+            return live(e.args[0], depth)
+        return False
+
+    for lp in loop[:1]:
+        ctx.check("R4", "_recursive_node_iter walks the live node container (forward and reversed)", gp is not None and live(lp.iter), gen, lp,
+                  f"the per-node loop iterates `{norm(lp.iter)}`, which is (on some path) a snapshot of the graph's nodes (slice, copy, sorted …) "
+                  "rather than the graph or reversed(graph): nodes removed during the traversal are still yielded and nodes inserted ahead are skipped",
+                  how="provenance of the loop's iterable through locals and conditional expressions",
+                  construct="iterable is not the live container")
     is_gen = any(isinstance(n, (ast.Yield, ast.YieldFrom)) for n in own_nodes(sub.node))
     eager = [n for n in own_nodes(sub.node) if isinstance(n, ast.Call) and dotted_of(n.func) in ("list", "tuple", "sorted")]
     ctx.check("R4", "_iterate_subgraphs is a generator creating iterators on demand", is_gen and not eager, sub, sub.node,
